@@ -7,18 +7,23 @@
 // that the abstraction of every dumped root is the pure model's tree.
 //
 // Trace lines
-//   set <k> <v> => <updated>             rm <k> => <value> <removed>
-//   save => saved <ver> | idem <ver> | err            whash => ok          rollback => ok
-//   reload <v> => ok <ver> | err          (MutableTree.LoadVersion on the same tree object)
-//   open I|Z <v> => x<id> | err | nil     (GetImmutable / LazyLoadVersion; the handle is kept)
-//   drop x<id> => ok
-//   get|has|idx|iter <w|x<id>> args… => answer
-//   heap <tokens…> => ok
+//
+//	set <k> <v> => <updated>             rm <k> => <value> <removed>
+//	save => saved <ver> | idem <ver> | err            whash => ok          rollback => ok
+//	reload <v> => ok <ver> | err          (MutableTree.LoadVersion on the same tree object)
+//	open I|Z <v> => x<id> | err | nil     (GetImmutable / LazyLoadVersion; the handle is kept)
+//	drop x<id> => ok
+//	get|has|idx|iter <w|x<id>> args… => answer
+//	heap <tokens…> => ok
+//
 // heap tokens (fields separated by ','):
-//   N,m<id>,key,value,height,size,version,hash,lhash,rhash,lptr,rptr,persisted   an in-memory object (emitted when new or changed)
-//   D,h<n>,key,value,height,size,version,lhash,rhash                              the DB record under hash n (emitted when new or changed)
-//   E,h<n>,c:m<id> | d | x            how GetNode(hash n) would resolve now: cache object / disk record / missing
-//   R,<label>,m<id> | h<n> | - | none a root: W working, L lastSaved, X<id> view handle, V<ver> root record of a saved version
+//
+//	N,m<id>,key,value,height,size,version,hash,lhash,rhash,lptr,rptr,persisted   an in-memory object (emitted when new or changed)
+//	D,h<n>,key,value,height,size,version,lhash,rhash                              the DB record under hash n (emitted when new or changed)
+//	E,h<n>,c:m<id> | d | x            how GetNode(hash n) would resolve now: cache object / disk record / missing
+//	R,<label>,m<id> | h<n> | - | none a root: W working, L lastSaved, X<id> view handle, V<ver> root record of a saved version
+//	Q,key:height:version;…            the node cache's LRU queue, least recently used first (small caches, first 400 steps)
+//
 // hashes are numbered h<n> in order of first appearance; '~' = nil.
 package main
 
@@ -70,6 +75,7 @@ type H struct {
 	nIdem      int
 	nReload    int
 	nHeapNodes int
+	cacheSize  int
 }
 
 func hx(b []byte) string { return gen.Hex(b) }
@@ -130,8 +136,8 @@ func b01(x bool) int {
 // ---------------------------------------------------------------- heap dump
 
 type dumper struct {
-	h    *H
-	toks []string
+	h     *H
+	toks  []string
 	seenE map[int]bool
 }
 
@@ -269,6 +275,18 @@ func (h *H) dumpHeap() {
 			}
 			d.root(fmt.Sprintf("V%d", v), ns)
 		}
+		if h.cacheSize <= 64 && h.step <= 400 {
+			// the LRU queue of a small node cache (least recently used first), for the heap model's cache
+			q := []string{}
+			for _, n := range h.tree.NodeCacheForVerif() {
+				q = append(q, fmt.Sprintf("%s:%d:%d", keyHex(n.Key), n.Height, n.Version))
+			}
+			qs := "-"
+			if len(q) > 0 {
+				qs = strings.Join(q, ";")
+			}
+			d.toks = append(d.toks, "Q,"+qs)
+		}
 		h.t.Line("heap", true, "heap %s => ok", strings.Join(d.toks, " "))
 		return ""
 	})
@@ -344,9 +362,21 @@ func (h *H) doWHash() {
 	h.dumpHeap()
 }
 
+// resyncPresent re-reads the key set of the working tree through a traced full iteration (a read
+// like any other: it loads nodes through the cache, so it is part of the history the driver replays).
 func (h *H) resyncPresent() {
 	h.present = map[string]bool{}
-	h.tree.WorkingTree().Iterate(func(k, v []byte) bool { h.present[string(k)] = true; return false })
+	res := try(func() string {
+		var ks, vs [][]byte
+		h.tree.WorkingTree().IterateRange(nil, nil, true, func(k, v []byte) bool {
+			h.present[string(k)] = true
+			ks = append(ks, k)
+			vs = append(vs, v)
+			return false
+		})
+		return renderKVs(ks, vs)
+	})
+	h.t.Line("iter", true, "iter w ~ ~ 1 0 => %s", res)
 }
 
 func (h *H) doRollback() {
@@ -354,8 +384,6 @@ func (h *H) doRollback() {
 	h.block, h.blockOK = nil, h.tree.Version() > 0
 	h.t.Line("rollback", true, "rollback => %s", res)
 	h.dumpHeap()
-	// the dump is side-effect free; the resync below reads through the tree (cache effects are part
-	// of the history, as any reader's would be) and is therefore followed by its own dump
 	h.resyncPresent()
 	h.dumpHeap()
 }
@@ -528,7 +556,7 @@ func main() {
 	}
 	h := &H{r: gen.New(*seed), r2: gen.New(*seed*31 + 7), t: gen.NewTrace(*out), tree: tree, present: map[string]bool{},
 		blocks: map[int64][]write{}, objID: map[interface{}]int{}, hashID: map[string]int{},
-		lastN: map[int]string{}, lastD: map[int]string{}, lastE: map[int]string{}, blockOK: true}
+		lastN: map[int]string{}, lastD: map[int]string{}, lastE: map[int]string{}, blockOK: true, cacheSize: *cache}
 	for i := 0; i < *nkeys; i++ {
 		k := []byte{byte(i >> 2), byte(i<<6) | byte(i%3)}
 		if i%5 == 3 {
